@@ -317,6 +317,17 @@ macro_rules! harness {
                         _ => {}
                     }
                     note_sends(&net_all(&st.network), &net_all(&nx.network), &mut shadow, &mut shadow_ok, &mut v, &mut outstanding, &mut ids_used);
+                    // a client that now awaits the reply to a new request id has made a call: it must
+                    // have been sent (and so recorded), whatever has become of the server meanwhile
+                    for i in ns..nx.actor_states.len() {
+                        let aw = |s: String| -> Option<u64> { s.split("awaiting: Some(").nth(1).and_then(|r| r.split(')').next()).and_then(|x| x.trim().parse().ok()) };
+                        let (a0, a1) = (aw(format!("{:?}", st.actor_states[i])), aw(format!("{:?}", nx.actor_states[i])));
+                        if let Some(id) = a1 {
+                            if a1 != a0 && !ids_used.contains(&(Id::from(i), id)) && v.is_empty() {
+                                v.push(Violation::new("C18", "history-unfaithful", format!("after {}: client {} awaits the reply to request {} but that call never entered the network, so the history cannot mirror it", chosen, i, id)));
+                            }
+                        }
+                    }
                     sig = (sig ^ crate::rng::hash_str(&chosen)).wrapping_mul(0x0000_0100_0000_01b3);
                     taken.push(chosen);
                     st = nx;
